@@ -654,9 +654,15 @@ func muxDict(t *rapid.T) gen.DictFile {
 	return f
 }
 
-func genCase(t *rapid.T) Case {
+func genCase(t *rapid.T) Case { return genCaseIn(t, nil, nil) }
+
+// genCaseIn is genCase over a given dictionary (fixed != nil) and over the commands usable
+// accepts (usable != nil).
+func genCaseIn(t *rapid.T, fixed *gen.DictChoice, usable func(gen.Cmd) bool) Case {
 	var c Case
-	if rapid.Bool().Draw(t, "mux-dict") {
+	if fixed != nil {
+		c.Dict = *fixed
+	} else if rapid.Bool().Draw(t, "mux-dict") {
 		f := muxDict(t)
 		c.Dict = gen.DictChoice{Name: "generated-mux", Gen: &f}
 	} else {
@@ -666,10 +672,19 @@ func genCase(t *rapid.T) Case {
 	if err != nil {
 		t.Fatalf("harness: %v", err)
 	}
-	if len(cat.Cmds) == 0 {
+	cmds := cat.Cmds
+	if usable != nil {
+		cmds = nil
+		for _, cm := range cat.Cmds {
+			if usable(cm) {
+				cmds = append(cmds, cm)
+			}
+		}
+	}
+	if len(cmds) == 0 {
 		t.Fatalf("harness: dictionary %s defines no command", c.Dict.Name)
 	}
-	cmd := rapid.SampledFrom(cat.Cmds).Draw(t, "cmd")
+	cmd := rapid.SampledFrom(cmds).Draw(t, "cmd")
 	c.Code, c.App = cmd.Code, cmd.App
 	switch rapid.IntRange(0, 3).Draw(t, "app-kind") {
 	case 1:
